@@ -37,80 +37,31 @@ class _Complement(ast.NodeTransformer):
 
     # ---- comprehensions: one bound variable per generator, components by subscript;
     #      dict(<pairs>) is a dict comprehension; list(sorted(x)) is sorted(x)
-    def _comp(self, node):
-        self.generic_visit(node)
-        depth = getattr(self, "_cdepth", 0)
-        table = {}
-        for gi, g in enumerate(node.generators):
-            var = f"_c{depth + gi}"
-
-            def bindall(t, expr):
-                if isinstance(t, ast.Name):
-                    table[t.id] = expr
-                elif isinstance(t, (ast.Tuple, ast.List)):
-                    for k, e in enumerate(t.elts):
-                        bindall(e, ast.Subscript(value=expr, slice=ast.Constant(k), ctx=ast.Load()))
-
-            bindall(g.target, ast.Name(id=var, ctx=ast.Load()))
-            g.target = ast.Name(id=var, ctx=ast.Store())
-
-        from engine.util import clone_ast
-
-        class R(ast.NodeTransformer):
-            def visit_Name(s_, n):
-                if isinstance(n.ctx, ast.Load) and n.id in table:
-                    return clone_ast(table[n.id])
-                return n
-
-        for gi, g in enumerate(node.generators):
-            if gi > 0:
-                g.iter = R().visit(g.iter)
-            g.ifs = [R().visit(x) for x in g.ifs]
-        if isinstance(node, ast.DictComp):
-            node.key = R().visit(node.key)
-            node.value = R().visit(node.value)
-        else:
-            node.elt = R().visit(node.elt)
-        return node
-
     def visit_ListComp(self, node):
-        return self._nested(node)
+        return self._comp_norm(node)
 
     def visit_SetComp(self, node):
-        return self._nested(node)
+        return self._comp_norm(node)
 
     def visit_GeneratorExp(self, node):
-        return self._nested(node)
+        return self._comp_norm(node)
 
     def visit_DictComp(self, node):
-        return self._nested(node)
+        return self._comp_norm(node)
 
-    def _nested(self, node):
-        d = getattr(self, "_cdepth", 0)
-        self._cdepth = d + len(node.generators)
-        try:
-            # inner comprehensions get higher numbers
-            for g in node.generators:
-                pass
-            r = self._comp_outer(node, d)
-        finally:
-            self._cdepth = d
-        return r
-
-    def _comp_outer(self, node, d):
-        saved = getattr(self, "_cdepth", 0)
-        # visit children with the increased depth, then rewrite this level with depth d
-        self.generic_visit(node)
-        self._cdepth = d
-        try:
-            # generic_visit already done: rewrite only
-            return self._rewrite_level(node, d)
-        finally:
-            self._cdepth = saved
-
-    def _rewrite_level(self, node, depth):
-        table = {}
+    def _comp_norm(self, node):
+        """bound variables are numbered by the HEIGHT of the comprehension (the
+        innermost ones get _c0), so that a sub-expression reads the same whatever
+        encloses it"""
         from engine.util import clone_ast
+
+        self.generic_visit(node)
+        below = -1
+        for n in ast.walk(node):
+            if n is not node and isinstance(n, (ast.ListComp, ast.SetComp, ast.GeneratorExp, ast.DictComp)):
+                below = max(below, getattr(n, "_h", 0))
+        base = below + 1
+        table = {}
 
         def bindall(t, expr):
             if isinstance(t, ast.Name):
@@ -120,9 +71,10 @@ class _Complement(ast.NodeTransformer):
                     bindall(e, ast.Subscript(value=expr, slice=ast.Constant(k), ctx=ast.Load()))
 
         for gi, g in enumerate(node.generators):
-            var = f"_c{depth + gi}"
+            var = f"_c{base + gi}"
             bindall(g.target, ast.Name(id=var, ctx=ast.Load()))
             g.target = ast.Name(id=var, ctx=ast.Store())
+        node._h = base + len(node.generators) - 1
 
         class R(ast.NodeTransformer):
             def visit_Name(s_, n):
@@ -860,8 +812,23 @@ def truth_of(conds, atom_text: str) -> Optional[bool]:
     steps the evaluators do not take themselves:
         not (a and b), a  |-  not b        (a or b), not a  |-  b"""
     facts = {t: pol for t, pol in conds}
-    if atom_text in facts:
-        return facts[atom_text]
+    try:
+        a_ = ast.parse(atom_text, mode="eval").body
+        a_pos = canon_cond(a_, True)
+        a_neg = canon_cond(a_, False)
+    except SyntaxError:
+        a_pos = a_neg = None
+    def look():
+        if atom_text in facts:
+            return facts[atom_text]
+        if a_pos is not None and a_pos[0] in facts:
+            return facts[a_pos[0]] == a_pos[1]
+        if a_neg is not None and a_neg[0] in facts:
+            return facts[a_neg[0]] != a_neg[1]
+        return None
+    r0 = look()
+    if r0 is not None:
+        return r0
     for _ in range(3):
         for t, pol in list(facts.items()):
             try:
@@ -887,9 +854,10 @@ def truth_of(conds, atom_text: str) -> Optional[bool]:
                     if len(unk) == 1 and all(val is not None and val != w for k, (val, w) in enumerate(known) if k != unk[0]):
                         pt, w = parts[unk[0]]
                         facts[pt] = w
-        if atom_text in facts:
-            return facts[atom_text]
-    return facts.get(atom_text)
+        r0 = look()
+        if r0 is not None:
+            return r0
+    return look()
 
 
 def consistent(conds) -> bool:
